@@ -90,6 +90,7 @@ class Axioms:
         self.used = set()
         self.extra_rules = []  # callables(term) -> list of instances (spec unfoldings, lemmas)
         self.pows = {}
+        self.own_quants = {}
         self.lstrips = []
         self.breps = []
         self.fuel = 1          # unfolding depth for recursive spec functions (terms of the query itself: depth 1)
@@ -110,6 +111,8 @@ class Axioms:
                 new.extend(self._inst(t))
             for q in quants:
                 # instances for terms under a binder are emitted under the same binder
+                if q.get_id() in self.own_quants:
+                    continue      # a quantified instance generated here: its body terms were already handled
                 n = q.num_vars()
                 cs = [z3.Const(f"{q.var_name(i)}!a{q.get_id()}", q.var_sort(i)) for i in range(n)]
                 body = z3.substitute_vars(q.body(), *reversed(cs))
@@ -118,7 +121,9 @@ class Axioms:
                 for u in sub:
                     for f in self._inst(u):
                         if _mentions(f, cs):
-                            new.append(z3.ForAll(cs, f))
+                            qf = z3.ForAll(cs, f)
+                            self.own_quants[qf.get_id()] = qf
+                            new.append(qf)
                         else:
                             new.append(f)
             new = [z3.simplify(n) for n in new]
